@@ -15,6 +15,7 @@ import random
 
 from ..core import Eq, Fail, Note
 from .. import pat, ops
+from .. import coexist
 from ..kapi import get_alg, mv, coeffs, mv_eq_claims, eq_claims, kmap, twice_on_wrapper
 
 PROP = 'C06'
@@ -115,6 +116,8 @@ def cases(tier, seed):
             P = pat.EXH(2) if d == 2 else pat.RND(3, 30, rng, max_len=5)
             for _ in range(12 if tier == 'quick' else 60):
                 add(dict(base, **opt), rng.choice(P), rng.choice(P))
+    # algebras coexisting in one process (shared blade names, different numbering / metric / options)
+    out += coexist.cases(tier, seed, 306, n_quick=8)
     return out
 
 
@@ -160,6 +163,8 @@ def _reflected(desc, V):
 
 
 def run_case(desc, V):
+    if desc['kind'] == 'coexist':
+        return coexist.run(desc, V, binary=('sw', 'proj'), unary=('normsq',))
     if desc['kind'] == 'reflected':
         return _reflected(desc, V)
     return twice_on_wrapper(desc['cfg'], lambda alg: _body(desc, V, alg))
